@@ -406,6 +406,14 @@ func dialCases(r *run.R) {
 		{"nothing-confirmed", []hashSpec{G}, nil, false},
 		{"no-extensions", []hashSpec{G}, nil, true},
 		{"confirmed-under-other-code", []hashSpec{G}, []hashSpec{gSha3}, false},
+		// repeated entries on either side: a repeated confirmation does not stand for another hash
+		{"served-confirmed-twice+bogus-dialed", []hashSpec{G, bogus}, []hashSpec{G, G}, false},
+		{"served-confirmed-twice+next-dialed", []hashSpec{G, N}, []hashSpec{G, G}, false},
+		{"served-confirmed-thrice+two-unconfirmed", []hashSpec{bogus, G, N}, []hashSpec{G, G, G}, false},
+		{"next-confirmed-twice+served-dialed", []hashSpec{G, N}, []hashSpec{N, N}, false},
+		{"dialed-twice-confirmed-once", []hashSpec{G, G}, []hashSpec{G}, false},
+		{"dialed-twice+bogus-confirmed-twice", []hashSpec{G, G, bogus}, []hashSpec{G, N, G}, false},
+		{"all-confirmed-with-repeats", []hashSpec{G, N}, []hashSpec{G, G, N, N}, false},
 	}
 	srvA, err := newScriptedServer(serverKey, [][]byte{good.raw}, good.key)
 	if err != nil {
